@@ -523,6 +523,8 @@ func (env *SpecEnv) evalCall(e *SExpr) Val {
 			env.fail(e, "oncedone: argument must be a sync.Once field y.f of a pointer y")
 		}
 		return Val{T: app("select", fc.heapGet(env.st(), "$oncedone", "(Array Int Bool)"), a.T), Ty: tBool}
+	case "chancap": // capacity given to make(chan T, n) (0 for an unbuffered channel)
+		return Val{T: app("select", fc.heapGet(env.st(), "$chancap", "(Array Int Int)"), arg(0).T), Ty: tInt}
 	case "spawned": // number of go statements executed by this function so far
 		return Val{T: fc.heapGet(env.st(), "$spawns", "Int"), Ty: tInt}
 	case "noelems": // the empty set of references ([0]bool, all false)
@@ -655,6 +657,11 @@ func (env *SpecEnv) evalCall(e *SExpr) Val {
 				return fc.bytesToString(env.st(), a, t)
 			}
 		}
+		if _, fromTP := a.Ty.(*types.TypeParam); fromTP {
+			if _, toIface := t.Underlying().(*types.Interface); toIface {
+				return fc.box(a, t) // any(x) for x of a type parameter's type
+			}
+		}
 		if _, fromIface := a.Ty.Underlying().(*types.Interface); fromIface {
 			if _, toIface := t.Underlying().(*types.Interface); !toIface {
 				return fc.unbox(a, t) // spec-level type assertion x.(T)
@@ -760,8 +767,12 @@ func (fc *FnCtx) assignConvSpec(v Val, to types.Type) Val {
 	if isInteger(v.Ty) && isInteger(to) && fc.sortOf(v.Ty) != fc.sortOf(to) {
 		return fc.convert(v, to, token.NoPos)
 	}
+	if _, toTP := to.(*types.TypeParam); toTP {
+		return Val{T: v.T, Ty: to}
+	}
 	if _, isIface := to.Underlying().(*types.Interface); isIface {
-		if _, fromIface := v.Ty.Underlying().(*types.Interface); !fromIface {
+		_, fromTP := v.Ty.(*types.TypeParam)
+		if _, fromIface := v.Ty.Underlying().(*types.Interface); !fromIface || fromTP {
 			return fc.box(v, to)
 		}
 	}
